@@ -11,6 +11,7 @@ A network is a JSON-able node list in topological order; node i refers to earlie
   {'k':'add','src':[a,b]}
   {'k':'flatten','src':i,'mult':m}
   {'k':'lin','src':i,'cin':..,'cout':..,'bias':bool}
+  {'k':'reuse','src':i,'of':j}                 the module of node j (conv c->c / linear h->h) applied again, to tensor i
 From it: the torch module (`build`: forward interprets the list -> fx-traceable), the Coq literal of the
 IR of Model/MpsNet.v (`coq_ir`), and per-node static shapes (`shapes`).
 """
@@ -18,7 +19,7 @@ import random
 from .common import Nat, Raw, coq
 
 
-def gen_spec(rng, ne16=False, max_blocks=4, first=None, dim=2, padmodes=False):
+def gen_spec(rng, ne16=False, max_blocks=4, first=None, dim=2, padmodes=False, reuse=False):
     """derive a network.  ne16=True restricts kernels to {1,3} (NE16 cost model).  `first` forces the
     first block kind ('dw', 'addin', ...) so that rare producer->consumer pairs are always reached."""
     cin = rng.randint(2 if ne16 else 1, 4)    # a 1->1 conv. is depthwise for the library; NE16 models only 3x3 depthwise
@@ -57,7 +58,7 @@ def gen_spec(rng, ne16=False, max_blocks=4, first=None, dim=2, padmodes=False):
     nb = rng.randint(1, max_blocks)
     for b in range(nb):
         c = st['c']
-        kind = first if (b == 0 and first) else rng.choice(['conv', 'conv', 'conv', 'dw', 'res', 'res2', 'dwres', 'pool', 'addin' if b == 0 else 'res'])
+        kind = first if (b == 0 and first) else rng.choice(['conv', 'conv', 'conv', 'dw', 'res', 'res2', 'dwres', 'pool', 'addin' if b == 0 else 'res'] + (['reuse2'] if reuse else []))
         if kind == 'conv':
             stride = 2 if (st['hw'] >= 4 and st['hw'] % 2 == 0 and rng.random() < 0.25) else 1
             co = rng.randint(2, 6)
@@ -92,6 +93,16 @@ def gen_spec(rng, ne16=False, max_blocks=4, first=None, dim=2, padmodes=False):
                 d = push({'k': 'dw', 'src': d, 'c': c, 'ks': 3, 'bias': rng.random() < 0.7})
             push({'k': 'add', 'src': [a, d] if rng.random() < 0.5 else [d, a]})
             tail(c, p_bn=0.0)
+        elif kind == 'reuse2':
+            # one conv module invoked twice: at the same resolution, or on the pooled map (other resolution)
+            j_ = conv(st['cur'], c, ks=rng.choice([1, 3]))
+            if rng.random() < 0.5:
+                push({'k': 'relu', 'src': st['cur'], 'fn': rng.random() < 0.5})
+            if st['hw'] >= 4 and st['hw'] % 2 == 0 and rng.random() < 0.7:
+                push({'k': 'pool', 'src': st['cur'], 't': rng.choice(['max2', 'avg2'])})
+                st['hw'] //= 2
+            push({'k': 'reuse', 'src': st['cur'], 'of': j_})
+            tail(c, p_bn=0.0)
         elif kind == 'pool':
             if st['hw'] >= 4 and st['hw'] % 2 == 0:
                 push({'k': 'pool', 'src': st['cur'], 't': rng.choice(['max2', 'avg2'])})
@@ -119,8 +130,24 @@ def gen_spec(rng, ne16=False, max_blocks=4, first=None, dim=2, padmodes=False):
         st['c'] = h
         tail(h, bdim=1)
         feat = h
+        if reuse and rng.random() < 0.4:            # one linear module (h -> h) invoked twice
+            j_ = push({'k': 'lin', 'src': st['cur'], 'cin': h, 'cout': h, 'bias': rng.random() < 0.7})
+            push({'k': 'relu', 'src': st['cur'], 'fn': rng.random() < 0.5})
+            push({'k': 'reuse', 'src': st['cur'], 'of': j_})
+            push({'k': 'relu', 'src': st['cur'], 'fn': False})
     push({'k': 'lin', 'src': st['cur'], 'cin': feat, 'cout': rng.randint(2, 4), 'bias': rng.random() < 0.8})
     return nodes
+
+
+def resolve(nodes, nd):
+    """a 'reuse' node seen as the layer it re-applies (with its own source)"""
+    if nd['k'] != 'reuse':
+        return nd
+    return dict(nodes[nd['of']], src=nd['src'], reuse_of=nd['of'])
+
+
+def has_reuse(nodes):
+    return any(nd['k'] == 'reuse' for nd in nodes)
 
 
 def is_dw(nd):
@@ -162,6 +189,13 @@ def shapes(nodes):
             out.append((c * nd['mult'], 0))
         elif k == 'lin':
             out.append((nd['cout'], 0))
+        elif k == 'reuse':
+            t = nodes[nd['of']]
+            if t['k'] == 'lin':
+                out.append((t['cout'], 0))
+            else:
+                c, hw = out[nd['src']]
+                out.append((t.get('cout', c), (hw + 2 * pad_of(t) - t['ks']) // t.get('stride', 1) + 1))
     return out
 
 
@@ -210,6 +244,8 @@ def build(nodes, seed):
                     v.append(torch.flatten(v[nd['src']], 1))
                 elif k == 'relu' and nd['fn']:
                     v.append(torch.relu(v[nd['src']]))
+                elif k == 'reuse':
+                    v.append(self.layers['n%d' % nd['of']](v[nd['src']]))
                 else:
                     v.append(self.layers['n%d' % i](v[nd['src']]))
             return v[-1]
@@ -232,6 +268,7 @@ def coq_ir(nodes):
     implementation fuses it into its producer, which leaves wiring and sharing unchanged)."""
     out = []
     for nd in nodes:
+        nd = resolve(nodes, nd)
         k = nd['k']
         if k == 'in':
             out.append('NIn %s' % coq(Nat(nd['c'])))
